@@ -20,7 +20,7 @@ pub struct SetCase {
 pub fn spec_to_json(s: &SetSpec) -> J {
     json!({
         "rules": s.rules.iter().map(|(n, e)| json!([n, expr_to_json(e), show_expr(e)])).collect::<Vec<_>>(),
-        "fns": s.fns.iter().map(|(k, f)| (k.clone(), json!({"cacheable": f.cacheable, "fail_on": f.fail_on, "fail_first": f.fail_first}))).collect::<serde_json::Map<_, _>>(),
+        "fns": s.fns.iter().map(|(k, f)| (k.clone(), json!({"cacheable": f.cacheable, "fail_on": f.fail_on, "fail_first": f.fail_first, "uncacheable_after": f.uncacheable_after}))).collect::<serde_json::Map<_, _>>(),
         "symbols": s.symbols.iter().map(|(k, v)| (k.clone(), value_to_json(v))).collect::<serde_json::Map<_, _>>(),
         "suspend": s.suspend,
     })
@@ -39,7 +39,7 @@ pub fn spec_from_json(j: &J) -> Option<SetSpec> {
                 cacheable: f.get("cacheable")?.as_bool()?,
                 fail_on: f.get("fail_on")?.as_array()?.iter().filter_map(|x| x.as_str().map(String::from)).collect(),
                 fail_first: f.get("fail_first")?.as_u64()? as u32,
-            },
+                uncacheable_after: f.get("uncacheable_after").and_then(|x| x.as_u64()).unwrap_or(0) as u32 },
         );
     }
     let mut symbols = BTreeMap::new();
@@ -106,7 +106,7 @@ pub fn rule_of(name: &str, e: &Expr) -> Rule {
 // rule expression generators
 
 /// 0 = succeeds; 1.. = fails with a distinct error class each
-pub const RULE_KINDS: usize = 15;
+pub const RULE_KINDS: usize = 18;
 
 pub fn rule_of_kind(k: usize, salt: i128) -> Expr {
     let i = |x: i128| Expr::value(x);
@@ -125,16 +125,27 @@ pub fn rule_of_kind(k: usize, salt: i128) -> Expr {
         11 => Expr::add(Expr::Value(pool::dt(pool::LAST_TS, 0)), Expr::duration(i(salt.max(1)))), // date out of range
         12 => Expr::int(Expr::Value(Value::Float(1e300))),                           // float not representable
         13 => Expr::sub(Expr::second(i(-(i64::MAX as i128) / 1000)), Expr::second(i(i64::MAX as i128 / 1000))), // duration out of range
-        _ => Expr::Vec(vec![Expr::func("fa", Expr::reff("vi")), Expr::func("fb", i(salt)), Expr::symbol("sa")]),
+        14 => Expr::Vec(vec![Expr::func("fa", Expr::reff("vi")), Expr::func("fb", i(salt)), Expr::symbol("sa")]),
+        // symbols as operands: a none item looked up in a map symbol (type error, as for a map written out)
+        15 => Expr::contains(Expr::symbol("sm"), Expr::index(Expr::reff("facts"), reval::expr::Index::Map(format!("nokey{salt}")))),
+        // a none-valued symbol as the collection (false), and symbols under several operators
+        16 => Expr::contains(Expr::symbol("snone"), i(salt)),
+        _ => Expr::Vec(vec![
+            Expr::contains(Expr::symbol("sl"), Expr::reff("vi")),
+            Expr::contains(Expr::symbol("sb"), Expr::value("y".to_string())),
+            Expr::index(Expr::symbol("sm"), reval::expr::Index::Map("a".into())),
+            Expr::gt(Expr::symbol("sa"), Expr::reff("vi")),
+            Expr::eq(Expr::symbol("snone"), Expr::symbol("snone")),
+        ]),
     }
 }
 
 /// probes registered for the fixed-kind rulesets
 pub fn standard_fns() -> BTreeMap<String, FnSpec> {
     let mut fns = BTreeMap::new();
-    fns.insert("fa".to_string(), FnSpec { cacheable: true, fail_on: vec![], fail_first: 0 });
-    fns.insert("fb".to_string(), FnSpec { cacheable: false, fail_on: vec![], fail_first: 0 });
-    fns.insert("ff".to_string(), FnSpec { cacheable: true, fail_on: vec![], fail_first: u32::MAX });
+    fns.insert("fa".to_string(), FnSpec { cacheable: true, fail_on: vec![], fail_first: 0, uncacheable_after: 0 });
+    fns.insert("fb".to_string(), FnSpec { cacheable: false, fail_on: vec![], fail_first: 0, uncacheable_after: 0 });
+    fns.insert("ff".to_string(), FnSpec { cacheable: true, fail_on: vec![], fail_first: u32::MAX, uncacheable_after: 0 });
     fns
 }
 
@@ -142,6 +153,9 @@ pub fn standard_symbols() -> BTreeMap<String, Value> {
     let mut s = BTreeMap::new();
     s.insert("sa".to_string(), Value::Int(7));
     s.insert("sb".to_string(), Value::String("sym".into()));
+    s.insert("sm".to_string(), pool::map(&[("a", Value::Int(1)), ("b", Value::None)]));
+    s.insert("sl".to_string(), Value::Vec(vec![Value::Int(5), Value::Int(7), Value::None]));
+    s.insert("snone".to_string(), Value::None);
     s
 }
 
@@ -274,7 +288,9 @@ pub fn gen_fns(d: &mut Dec, stateful: bool) -> BTreeMap<String, FnSpec> {
             fail_on.push(me::arg_key(d.pick(&args)));
         }
         let fail_first = if stateful && d.below(5) == 0 { 1 + d.below(2) as u32 } else { 0 };
-        fns.insert(name.to_string(), FnSpec { cacheable, fail_on, fail_first });
+        // (sequential histories only) now and then a cacheable function stops being cacheable after a few invocations
+        let uncacheable_after = if stateful && cacheable && *name != crate::probe::DEFAULT_CACHEABILITY_NAME && d.below(6) == 5 { 1 + d.below(4) as u32 } else { 0 };
+        fns.insert(name.to_string(), FnSpec { cacheable, fail_on, fail_first, uncacheable_after });
     }
     fns
 }
